@@ -15,7 +15,7 @@ func init() {
 }
 
 func gen(rng *rand.Rand, tier core.Tier, emit core.Emit) {
-	n, maxLen := 200, 40
+	n, maxLen := 300, 40
 	if tier == core.Thorough {
 		n, maxLen = 600, 200
 	}
